@@ -24,6 +24,8 @@ HEXCH = [ord(ch) for ch in "0123456789abcdefABCDEF"]
 def _install(c):
     strs.install(c)
     import a5.core.hex as hx
+    from symx import strlift
+    strlift.lift_module(hx)          # string literals -> KStr, f-strings -> model (re-compiled from the current source)
     hx.hex = strs.hex_model
     from symx import shims as _sh
     hx.int = _sh.make_int_shim(strs.int_model)
@@ -225,7 +227,7 @@ for n in cands:
     if b != n: bad("roundtrip-mismatch:bits=%%d" %% n.bit_length())
 if %d != %d and u64_to_hex(%d) == u64_to_hex(%d): bad("hex-collision")
 print("ok")
-""" % (inp["n"], inp.get("m", 0), inp["n"], inp.get("m", 0), inp["n"], inp.get("m", 0)), "description": "hex round trip"}
+""" % (inp["n"], inp.get("m", 0), inp["n"], inp.get("m", 0), inp["n"], inp.get("m", 0)), "description": "hex round trip", "candidate": any("#" in k for k in inp)}
     if f == "h_parse":
         s = "".join(chr(inp["ch%d" % i]) for i in range(p["L"]))
         return {"script": _PRE + """
@@ -238,7 +240,10 @@ if v != int(s, 16): bad("parse-wrong-value:len=%%d" %% len(s))
 if hex_to_u64(s.lower()) != v or hex_to_u64(s.upper()) != v: bad("parse-case-sensitive:len=%%d" %% len(s))
 if u64_to_hex(v) != (s.lower().lstrip("0") or "0"): bad("render-of-parse:len=%%d" %% len(s))
 print("ok")
-""" % s, "description": "hex parse"}
+""" % s, "description": "hex parse",
+                # a witness that fixes a value of an over-approximating contract stub (math.log...) may be spurious:
+                # if it does not reproduce on the real functions it is reported as inconclusive, not as an engine fault
+                "candidate": any("#" in k for k in inp)}
     return None
 
 
